@@ -95,6 +95,15 @@ def run(ck, m):
           f"_swap_win_size is read by {sorted(readers)}; only get_cell_size (whose cache the toggles reset) may depend on it",
           stmt="readers of _swap_win_size")
 
+    # ... and it is read under the lock the toggles take to reset the cache: a value read before waiting for the lock may be the one
+    # from before a toggle (which flipped the flag and cleared the cache meanwhile) and would re-populate the cache for the old setting
+    gcs0 = m.get(U, "get_cell_size")
+    sw_reads = [n for n in body_walk(gcs0) if isinstance(n, ast.Name) and n.id == "_swap_win_size" and isinstance(n.ctx, ast.Load)]
+    ck.expect(len(sw_reads) >= 1, "get_cell_size: no read of _swap_win_size found")
+    for n in sw_reads:
+        ck.ob("R1", enclosing_stmt(n), _under_lock(n, "_cell_size_lock"), "get_cell_size reads `_swap_win_size` outside `_cell_size_lock`: a toggle (flag flip + cache reset) can complete between this read and the "
+              "cache store, which then records a cell size computed with the old setting", stmt="get_cell_size: _swap_win_size read under the cache lock")
+
     # ---- R2 -----------------------------------------------------------------------------
     enable = m.get(I, "enable_queries")
     enable_src = norm(enable)
@@ -194,17 +203,26 @@ def run(ck, m):
     ck.ob("R4", gcs, len(cmps) == 1 and norm(cmps[0].left) == "terminal_size" and "_cell_size_cache[:2]" in norm(cmps[0]),
           "the cache-hit test must compare the terminal size read in this call with the stored key `_cell_size_cache[:2]`", stmt="get_cell_size: compare key")
     if stores and cmps:
+        # every return that is not taken on a cache hit (its traced conditions do not include `terminal_size == stored key`) must come
+        # after the cache store on every path
+        from tiv.sem import _bool, tconds
         g = CFG(gcs)
-        hit_if = enclosing_stmt(cmps[0])
         snode = g.nodes_of(stores[0])
-        tnodes = [n for n in g.nodes if n.kind == "test" and n.ast is not None and any(x is cmps[0] for x in ast.walk(n.ast))]
-        ck.expect(len(tnodes) == 1 and isinstance(hit_if, ast.If) and not (isinstance(hit_if.test, ast.UnaryOp)), "get_cell_size: cache-hit test node not recognised")
-        if len(tnodes) == 1:
-            tn = tnodes[0]
-            miss_lab = "false"       # the test is `terminal_size == key`: the miss path is its false edge
-            p = g.search([tn], lambda x: x is g.exit_return, avoid=lambda x: x in snode,
-                         edge_ok=lambda a, lab, d: not lab.startswith(("e:", "p:")) and not (a is tn and lab != miss_lab))
-            ck.ob("R4", hit_if, p is None,
+        hit = _bool(ast.parse("terminal_size == tuple(_cell_size_cache[:2])", mode="eval").body)
+        from tiv.sem import truth_nnf
+        hit_edges = set()          # (test node, label) taken exactly when the stored key matched
+        for tn in [n_ for n_ in g.nodes if n_.kind == "test" and n_.ast is not None]:
+            tt = trace(gcs, tn.ast, keep=("terminal_size",))
+            for lab, neg in (("true", False), ("false", True)):
+                f_ = truth_nnf(tt, neg=neg)
+                if any(_bool(v_) == hit for v_ in (f_.values if isinstance(f_, ast.BoolOp) and isinstance(f_.op, ast.And) else [f_])):
+                    hit_edges.add((tn, lab))
+        ck.expect(len(hit_edges) >= 1, "get_cell_size: no branch taken under the cache-hit condition recognised")
+        for r in [x for x in body_walk(gcs) if isinstance(x, ast.Return)]:
+            rn_ = g.nodes_of(r)
+            p = g.search([g.entry], lambda x: x in rn_, avoid=lambda x: x in snode, from_succ=False,
+                         edge_ok=lambda a, lab, d: not lab.startswith(("e:", "p:")) and (a, lab) not in hit_edges)
+            ck.ob("R4", r, p is None,
                   f"a return of a freshly computed (or failed) cell size is reachable without updating the cache ({fmt_path(p) if p else ''}): the entry for an older terminal size is never evicted",
                   stmt="get_cell_size: every miss path stores before returning")
 
